@@ -9,3 +9,6 @@ fs_readable = z3.Function('fs_readable', Str, Bool)
 
 from pyvc.values import MapSV
 policy_values = z3.Function('policy_values', V, MapSV)   # content of RequestContext.to_policy_values()
+
+find_file = z3.Function('find_file', V, V, V)          # conf.find_file(name): path string or None
+opt_location = z3.Function('opt_location', V, V, V, V)  # conf.get_location(opt, group).location
